@@ -16,7 +16,56 @@ func init() { register("C19", c19) }
 // every option of every command: documented default (Flag.DefValue, what the help template
 // prints), the current value of the bound variable (what the command reads when the option is
 // omitted) and the identity of the bound variable.
+// c19parse gives every option its documented default explicitly, in each way of writing it ("--name v",
+// "--name=v", "-s v"; Bool options only "--name=v"), through the command's own ParseFlags, and
+// reports the value the option ends with and the words left over as positional arguments.
+func c19parse() *Sexp {
+	rows := L()
+	var walk func(cm *cobra.Command)
+	walk = func(cm *cobra.Command) {
+		seen := map[string]bool{}
+		try := func(f *pflag.Flag) {
+			if seen[f.Name] {
+				return
+			}
+			seen[f.Name] = true
+			typ, def := f.Value.Type(), f.DefValue
+			if len(typ) > 5 && (typ[len(typ)-5:] == "Slice" || typ[len(typ)-5:] == "Array") {
+				if len(def) < 2 || def == "[]" {
+					return // an empty list cannot be written on the command line
+				}
+				def = def[1 : len(def)-1]
+			}
+			forms := [][]string{{"eq", "--" + f.Name + "=" + def}}
+			if typ != "bool" {
+				forms = append(forms, []string{"space", "--" + f.Name, def})
+				if f.Shorthand != "" {
+					forms = append(forms, []string{"short", "-" + f.Shorthand, def})
+				}
+			}
+			for _, fm := range forms {
+				err := cm.ParseFlags(fm[1:])
+				left := cm.Flags().Args()
+				rows.List = append(rows.List, L(A(cm.CommandPath()), A(f.Name), A(fm[0]), A(typ), A(f.NoOptDefVal), A(f.DefValue),
+					A(f.Value.String()), I(len(left)), A(errStr(err))))
+			}
+		}
+		cm.LocalFlags().VisitAll(try)
+		cm.InheritedFlags().VisitAll(try)
+		subs := cm.Commands()
+		sort.Slice(subs, func(i, j int) bool { return subs[i].Name() < subs[j].Name() })
+		for _, s := range subs {
+			walk(s)
+		}
+	}
+	walk(cmd.RootCmd)
+	return L(KV("parse", rows), KV("n", A(fmt.Sprintf("%d", len(rows.List)))))
+}
+
 func c19(c *Sexp) *Sexp {
+	if c.Str("op") == "parse" {
+		return c19parse()
+	}
 	rows := L()
 	required := L()
 	addr := map[uintptr]int{}
